@@ -9,9 +9,17 @@
 //!   cib    <c> <k> <scaled> <n> <conf>      bits of (low, high) | err <Variant>
 //!   ref    point|ci|varn|q|pnc … <published bits…>    close | far …   (|computed − published| < f64::EPSILON)
 //!   pin    point|ci …            <bits…>    the bits on the current tree (compared with the bits in the line)
-//!   gather <k> <scaled> <conf> <calc_ci> <orig> <remaining> <match> <match_size>
-//!                                           ANI-related fields of calculate_gather_stats
-//!   gatherv (same arguments)                verdict on the reported fields themselves: ani-ok avg-ok max-ok ci-ok
+//!   gather <k> <scaled> <conf> <calc_ci> <orig> <remaining> <match> <match_size> [<match_scaled> <rank>]
+//!                                           ANI-related fields of calculate_gather_stats.  The query sketches are
+//!                                           built at <scaled>, the match sketch at <match_scaled> (default: the
+//!                                           same; finer = it is downsampled inside the function; coarser = error).
+//!                                           The two CI tokens say whether the reported interval is bit-for-bit
+//!                                           ani_ci_from_containment(f, k, <scaled>, nu, conf) with nu (printed last)
+//!                                           the n_unique_kmers of the match DOWNSAMPLED to <scaled>.
+//!   gatherv (same arguments)                verdict on the reported fields themselves: ani-ok avg-ok max-ok ci-ok,
+//!                                           then the invariance oracle: the same call with the match downsampled
+//!                                           (KmerMinHash::downsample_scaled) BEFORE the call must give bit-identical
+//!                                           pre-ratios-same pre-ani-same pre-ci-same (…-diff:<bits>/<bits> otherwise)
 //!   mid    q|expn|varn|expsq|pnc|f12 …      private intermediates — see `real_src` below
 //!
 //! `point`, `ci`, `cib`, `ref point|ci`, `pin`, `gather` run the real crate (`sourmash::ani_utils`,
@@ -295,15 +303,22 @@ fn step(_: &mut (), ws: &[&str]) -> String {
             let calc_ci = ws[4] == "1";
             let orig = mh(k, scaled, &parse_nats(ws[5]));
             let remaining = mh(k, scaled, &parse_nats(ws[6]));
-            let mat = mh(k, scaled, &parse_nats(ws[7]));
+            let mscaled = if ws.len() > 9 { u(9) } else { scaled };
+            let rank = if ws.len() > 10 { u(10) as usize } else { 0 };
+            let mat = mh(k, mscaled, &parse_nats(ws[7]));
             let match_size = u(8) as usize;
-            let mut sig = Signature::default();
-            sig.push(Sketch::MinHash(mat.clone()));
-            match calculate_gather_stats(&orig, remaining, sig.into(), match_size, 0, 0, 0, false, calc_ci, conf) {
+            let run = |m: &KmerMinHash| {
+                let mut sig = Signature::default();
+                sig.push(Sketch::MinHash(m.clone()));
+                calculate_gather_stats(&orig, remaining.clone(), sig.into(), match_size, rank, 0, 0, false, calc_ci, conf)
+            };
+            match run(&mat) {
                 Err(e) => err_name(&e),
                 Ok((r, _)) => {
                     let kf = k as f64;
-                    let nu = mat.n_unique_kmers();
+                    // the sketch the comparison is made with: the match at the query's scaled
+                    let mat_ds = mat.clone().downsample_scaled(scaled).expect("finer or equal");
+                    let nu = mat_ds.n_unique_kmers();
                     let ci_same = |c: f64, lo: Option<f64>, hi: Option<f64>| -> String {
                         if !calc_ci {
                             return if lo.is_none() && hi.is_none() { "none".into() } else { "unexpected".into() };
@@ -327,10 +342,56 @@ fn step(_: &mut (), ws: &[&str]) -> String {
                         let cm = ci_same(r.f_match(), r.match_containment_ani_ci_low(), r.match_containment_ani_ci_high());
                         let ci_ok = [cq, cm].iter().all(|s| s == "same" || s == "none");
                         let t = |b: bool, s: &str| format!("{}-{}", s, if b { "ok" } else { "BAD" });
-                        return format!("{} {} {} {}", t(ani_ok, "ani"), t(avg_ok, "avg"), t(max_ok, "max"), t(ci_ok, "ci"));
+                        // invariance: where the match is downsampled must not matter
+                        let pre = match run(&mat_ds) {
+                            Err(e) => format!("pre-{}", err_name(&e).replace(' ', "-")),
+                            Ok((p, _)) => {
+                                let grp = |name: &str, a: Vec<Option<f64>>, b: Vec<Option<f64>>| -> String {
+                                    let bits = |v: &[Option<f64>]| v.iter().map(|x| opt_bits(*x)).collect::<Vec<_>>().join(",");
+                                    if bits(&a) == bits(&b) {
+                                        format!("pre-{}-same", name)
+                                    } else {
+                                        format!("pre-{}-diff:{}/{}", name, bits(&a), bits(&b))
+                                    }
+                                };
+                                let ratios = |g: &sourmash::index::GatherResult| {
+                                    vec![Some(g.f_orig_query()), Some(g.f_match_orig()), Some(g.f_unique_to_query()), Some(g.f_match())]
+                                };
+                                let anis = |g: &sourmash::index::GatherResult| {
+                                    vec![
+                                        Some(g.query_containment_ani()),
+                                        Some(g.match_containment_ani()),
+                                        Some(g.average_containment_ani()),
+                                        Some(g.max_containment_ani()),
+                                    ]
+                                };
+                                let cis = |g: &sourmash::index::GatherResult| {
+                                    vec![
+                                        g.query_containment_ani_ci_low(),
+                                        g.query_containment_ani_ci_high(),
+                                        g.match_containment_ani_ci_low(),
+                                        g.match_containment_ani_ci_high(),
+                                    ]
+                                };
+                                format!(
+                                    "{} {} {}",
+                                    grp("ratios", ratios(&r), ratios(&p)),
+                                    grp("ani", anis(&r), anis(&p)),
+                                    grp("ci", cis(&r), cis(&p))
+                                )
+                            }
+                        };
+                        return format!(
+                            "{} {} {} {} {}",
+                            t(ani_ok, "ani"),
+                            t(avg_ok, "avg"),
+                            t(max_ok, "max"),
+                            t(ci_ok, "ci"),
+                            pre
+                        );
                     }
                     format!(
-                        "{} {} {} {} {} {} {} {} {} {}",
+                        "{} {} {} {} {} {} {} {} {} {} nu={}",
                         fb(r.f_orig_query()),
                         fb(r.f_match_orig()),
                         fb(r.f_unique_to_query()),
@@ -341,6 +402,7 @@ fn step(_: &mut (), ws: &[&str]) -> String {
                         fb(r.max_containment_ani()),
                         ci_same(r.f_unique_to_query(), r.query_containment_ani_ci_low(), r.query_containment_ani_ci_high()),
                         ci_same(r.f_match(), r.match_containment_ani_ci_low(), r.match_containment_ani_ci_high()),
+                        nu,
                     )
                 }
             }
@@ -551,11 +613,35 @@ fn gen(a: &Args) {
     }
 
     // ---- stream 4: gather's ANI fields
+    // match sketch at the query's scaled / finer (really thinned inside the function) / finer but with
+    // nothing above the query's max_hash (equal after downsampling) / coarser (refused);
+    // calc_ani_ci on and off; confidence None and Some; rank 0 (remaining = original) and rank >= 1.
     o.case("gather");
-    let n = if thorough { 4_000 } else { 400 };
-    for _ in 0..n {
+    let n = if thorough { 8_000 } else { 800 };
+    for i in 0..n {
+        if i % 100 == 0 && i > 0 {
+            o.case("gather");
+        }
         let k = *r.pick(&[21u64, 31, 51, 7]);
-        let scaled = *r.pick(&[1u64, 2, 10, 100, 1000]);
+        let scaled = *r.pick(&[1u64, 2, 10, 100, 1000, 1000, 7919, 10_000]);
+        // 0 same, 1 finer, 2 finer/equal-after-downsample, 3 coarser
+        let class = if scaled == 1 {
+            if r.chance(1, 12) { 3 } else { 0 }
+        } else {
+            match r.below(12) {
+                0..=2 => 0,
+                3..=7 => 1,
+                8..=10 => 2,
+                _ => 3,
+            }
+        };
+        let mscaled = match class {
+            0 => scaled,
+            1 | 2 => *r.pick(&[1u64, 1.max(scaled / 10), 1.max(scaled / 2), scaled - 1]),
+            _ => *r.pick(&[scaled + 1, 2 * scaled, 10 * scaled]),
+        };
+        let mq = sourmash::sketch::minhash::max_hash_for_scaled(scaled);
+        let mm = sourmash::sketch::minhash::max_hash_for_scaled(mscaled);
         let universe = r.range(20, 120);
         let pickset = |r: &mut Rng, p: u64| -> Vec<u64> { (1..=universe).filter(|_| r.chance(p, 8)).collect() };
         let mut orig = pickset(&mut r, 5);
@@ -569,19 +655,59 @@ fn gen(a: &Args) {
                 mat.push(universe + h);
             }
         }
+        // the largest hash the query can hold, on either side
+        if r.chance(1, 4) {
+            orig.push(mq);
+        }
+        if r.chance(1, 4) {
+            mat.push(mq);
+        }
+        if r.chance(1, 6) {
+            orig.push(mq - 1);
+            mat.push(mq - 1);
+        }
+        // hashes the query sketch drops when they are added
+        if mq < u64::MAX && r.chance(1, 8) {
+            orig.push(mq + 1);
+        }
+        // the part of a finer match that downsampling removes: right above the query's max_hash, spread
+        // up to the match's own max_hash, that max_hash itself, and one beyond it (dropped on insertion)
+        if class == 1 && mm > mq {
+            let span = mm - mq;
+            let nhigh = r.range(1, 2 * universe);
+            mat.push(mq + 1);
+            for _ in 0..nhigh {
+                mat.push(mq + 1 + r.below(span));
+            }
+            if r.chance(1, 3) {
+                mat.push(mm);
+            }
+            if mm < u64::MAX && r.chance(1, 4) {
+                mat.push(mm + 1);
+            }
+        }
+        if class == 3 && r.chance(1, 2) {
+            // a coarser match cannot hold these anyway
+            mat.retain(|h| *h <= mm);
+        }
         orig.sort();
+        orig.dedup();
         mat.sort();
+        mat.dedup();
         // the remaining query is a subset of the original one (rank 0: the same)
-        let remaining: Vec<u64> = if r.chance(1, 2) {
+        let rank = if r.chance(1, 2) { 0 } else { r.range(1, 5) };
+        let remaining: Vec<u64> = if rank == 0 {
             orig.clone()
         } else {
             orig.iter().cloned().filter(|_| r.chance(3, 4)).collect()
         };
-        let match_size = r.range(0, mat.len() as u64);
-        let conf = *r.pick(&CONFS);
+        // size of the match as the comparison sees it
+        let ds = mat.iter().filter(|h| **h <= mq.min(mm)).count() as u64;
+        let match_size = r.range(0, ds);
+        let conf = if r.chance(1, 5) { Some(0.8 + r.below(1901) as f64 / 10_000.0) } else { *r.pick(&CONFS) };
         let calc_ci = r.chance(2, 3);
         let args = format!(
-            "{} {} {} {} {} {} {} {}",
+            "{} {} {} {} {} {} {} {} {} {}",
             k,
             scaled,
             conf_s(conf),
@@ -589,7 +715,9 @@ fn gen(a: &Args) {
             show_nats(orig),
             show_nats(remaining),
             show_nats(mat),
-            match_size
+            match_size,
+            mscaled,
+            rank
         );
         o.op(&format!("gather {}", args));
         o.op(&format!("gatherv {}", args));
